@@ -136,7 +136,17 @@ fn wellformed(rng: &mut Rng) -> Vec<String> {
                 u.push("startpos".into());
                 Pos::start()
             } else {
-                let p = match rng.below(3) {
+                let p = match rng.below(4) {
+                    // positions in which the game is over (no legal move): a go there must not
+                    // take the process down or wedge it
+                    3 => Pos::from_fen(rng.pick(&[
+                        "rnb1kbnr/pppp1ppp/8/4p3/6Pq/5P2/PPPPP2P/RNBQKBNR w KQkq - 1 3",
+                        "7k/5Q2/6K1/8/8/8/8/8 b - - 0 1",
+                        "k7/2Q5/8/8/8/8/8/7K b - - 0 1",
+                        "3k4/3P4/3K4/8/8/8/8/8 b - - 0 1",
+                        "6rk/5Npp/8/8/8/8/8/7K b - - 0 1",
+                    ]))
+                    .unwrap(),
                     0 => Pos::from_fen(rng.pick(gen::CURATED)).unwrap(),
                     1 => Pos::from_fen(rng.pick(gen::BENCH_FENS)).unwrap(),
                     _ => gen::sparse_position(rng),
@@ -335,6 +345,7 @@ pub fn check(plans: &[Plan], recs: &[RunRec]) -> Outcome {
     let (plan, rec) = (&plans[0], &recs[0]);
     let mut out = Outcome::default();
     common_stats(plan, rec, &mut out.stats);
+    super::check_input_blocked(rec, &mut out);
     let h = history(rec);
     let s = &mut out.stats;
 
@@ -435,6 +446,7 @@ pub fn check(plans: &[Plan], recs: &[RunRec]) -> Outcome {
                 ),
             ));
         }
+        EndReason::InputBlocked => {} // reported by check_input_blocked
         EndReason::ExitOverdue => {
             out.violations.push(Violation::new(
                 "exit_overdue",
